@@ -174,6 +174,8 @@ def programs(tier):
     # failures
     out.append(("undefined-macro", prelude() + [("call", "nosuch", [ARGS["lit"]])] + postlude()))
     out.append(("missing-argument", prelude() + [("macrodef", "m", *BODIES["two"]), ("call", "m", [ARGS["lit"]])] + postlude()))
+    out.append(("undefined-macro-under-taken-if", prelude() + [("if", "1", [("raw", ".db 1"), ("call", "nosuch", [ARGS["lit"]])], [("raw", ".db 2")])] + postlude()))
+    out.append(("undefined-macro-in-recursive-step", prelude() + [("macrodef", "rec", ["n"], [("if", "n", [("raw", ".db n"), ("call", "stepp", [("expr", "n")]), ("call", "rec", [("expr", "n - 1")])], None)]), ("call", "rec", [("expr", "2")])] + postlude()))
     out.append(("missing-all-arguments", prelude() + [("macrodef", "m", *BODIES["db"]), ("call", "m", [])] + postlude()))
     return out
 
